@@ -46,7 +46,8 @@ RULE = ("cases = P (all configurations within k deviations of the base on 8 axes
         "distinct = distinct (configuration, schedule, mode, per-bucket dtype/shape of the result) signatures")
 ASSUMPTIONS = [
     "every bucket is written in every step or never (buckets initialised only in some steps are out of scope)",
-    "pixel and charge are always initialised (zero arrays) and therefore always expected in the result",
+    "only buckets written by a writer model are demanded in the result (the framework's own zero pixel / charge "
+    "arrays are not 'initialised by a model')",
     "a bucket 'changed by a model' is measured by snapshots taken inside the writer probe before and after its writes",
     "float dtypes of the result are free (only values are compared after widening); only the image dtype is demanded",
 ]
@@ -275,6 +276,8 @@ def check_record(res, snaps, sched, cfg, layout, bad, salt=0):
     labels = [start + t for t in times]
     steps = "1" if n == 1 else ">=2"
     for b in U.BUCKETS:
+        if cfg[b] == "none":
+            continue                                     # no model initialised this bucket: nothing is demanded
         vals = [s[b] for s in snaps]
         if b == "charge" and all(v is None for v in vals):
             vals = [expected_charge(cfg, i, salt) for i in range(n)]       # observer did not read the charge bucket
